@@ -49,7 +49,11 @@ def build(cfg):
             def equation(self, t, u, params):
                 return u(t, params) * params.eq_params["a"] - 2.0 * params.eq_params["b"] + params.eq_params["c"] + extra(params)
         u = mk([{(0,): 1, (1,): 3, (2,): -1}], "ODE")
-        g = jinns.data.DataGeneratorODE(jax.random.PRNGKey(cfg["seed"]), cfg["nt"], 0.0, 1.0, cfg["bs"])
+        if cfg.get("rar"):      # refinement configured: the loop also calls trigger_rar after every update
+            g = jinns.data.DataGeneratorODE(jax.random.PRNGKey(cfg["seed"]), cfg["nt"] + 6, 0.0, 1.0, cfg["bs"],
+                                            rar_parameters={"start_iter": 1, "update_every": 2, "sample_size_times": 3, "selected_sample_size_times": 1}, nt_start=cfg["nt"])
+        else:
+            g = jinns.data.DataGeneratorODE(jax.random.PRNGKey(cfg["seed"]), cfg["nt"], 0.0, 1.0, cfg["bs"])
     elif kind == "statio":
         class Eq(jinns.loss.PDEStatio):
             def equation(self, x, u, params):
@@ -122,8 +126,13 @@ def build(cfg):
                               flags=jnp.array((v["flags"] + [False] * pad)[:pad]), count=jnp.array(0))
     elif v and v["type"] == "loss":
         sub = build(dict(cfg, validation=None, inject=None, seed=cfg["seed"] + 7, param_gen=bool(v.get("own_param_gen")), obs_gen=bool(v.get("own_obs_gen"))))
-        gv, vp = sub["g"], sub["pg"]
-        validation = jinns.validation.ValidationLoss(loss=L, validation_data=gv, validation_param_data=vp, validation_obs_data=sub["og"], call_every=v["every"],
+        gv, vp, vo = sub["g"], sub["pg"], sub["og"]
+        if vo is not None and v.get("nan_obs"):
+            # some validation observations are not numbers: the criterion of those invocations is NaN, which is no strict new minimum
+            vals = vo.observed_values
+            vo = jinns.data.DataGeneratorObservations(jax.random.PRNGKey(cfg["seed"] + 9), vo.obs_batch_size, vo.observed_pinn_in,
+                                                      vals.at[::3].set(jnp.nan))
+        validation = jinns.validation.ValidationLoss(loss=L, validation_data=gv, validation_param_data=vp, validation_obs_data=vo, call_every=v["every"],
                                                      early_stopping=v["early"], patience=v["patience"])
     return dict(u=u, P=P, L=L, g=g, pg=pg, og=og, opt=opt, tracked=tracked, validation=validation)
 
@@ -157,6 +166,8 @@ def reference(cfg, pb=None, start=None):
             og, ob = og.get_batch(); b = jinns.data.append_obs_batch(b, ob)
         return g, pg, og, b
     st = opt.init(P) if start is None else start[1]
+    from jinns.solver._rar import init_rar, trigger_rar
+    g, rar_true, rar_false = init_rar(g)                # as solve does first (a no-op without refinement)
     g, pg, og, _ = draw(g, pg, og)                      # the batch drawn to shape the containers
     params, opts, gens = [P], [st], [g]
     losses, terms, crits, val_outcomes, val_losses = [], [], [], [], []
@@ -172,6 +183,8 @@ def reference(cfg, pb=None, start=None):
         (v, tm), gr = jax.value_and_grad(L, has_aux=True)(params[-1], b)
         up, st = opt.update(gr, st, params[-1])
         pn = optax.apply_updates(params[-1], up)
+        if rar_true is not None:                        # refinement looks at the updated parameters and only touches the generator
+            _, _, g = trigger_rar(i, L, pn, g, rar_true, rar_false)
         losses.append(float(v)); terms.append({k: float(x) for k, x in tm.items()})
         params.append(pn); opts.append(st); gens.append(g)
         executed += 1
@@ -288,14 +301,15 @@ def tokens(cfg, ref, out):
     if cfg.get("validation"):
         cv = [float(x) for x in np.asarray(out[7])]
         avals = [float(p.eq_params["a"]) + 100.0 for p in ref["params"]] if cfg["validation"]["type"] == "scripted" else None
-        for x in cv:
+        for pos, x in enumerate(cv):
             if x == 0.0:
                 o_hc.append(0)
             elif avals is not None:
                 o_hc.append(version_of(x, avals, close))
             else:
                 # map the criterion to the parameter version it was computed at
-                t = version_of(x, [c for c, _ in ref["crits"]], close)
+                # (equal values -- several NaN criteria, a plateau -- are told apart by their position in the history)
+                t = version_of(x, [c for c, _ in ref["crits"]], close, hint=pos)
                 o_hc.append(ref["crits"][t][1] if t != 997 else 997)
         o_best = version_of(out[8], ref["params"], tree_close)
     return dict(o_last=o_last, o_opt=o_opt, o_data=o_data, o_best=o_best, o_hl=o_hl, o_ht=o_ht, o_htr=o_htr, o_hc=o_hc)
@@ -359,4 +373,5 @@ def base_cfg(rng, kind=None, n=None):
     kind = kind or rng.choice(KINDS)
     bs = rng.choice([2, 3])
     return dict(kind=kind, n=n if n is not None else rng.randint(1, 9), nt=rng.choice([bs * 2, bs * 2 + 1, 7]), bs=bs, opt=rng.choice(OPTS),
-                seed=rng.randrange(1 << 20), param_gen=rng.random() < 0.4, obs_gen=(rng.random() < 0.4), track=rng.random() < 0.8)
+                seed=rng.randrange(1 << 20), param_gen=rng.random() < 0.4, obs_gen=(rng.random() < 0.4), track=rng.random() < 0.8,
+                rar=(kind == "ode" and rng.random() < 0.5))
